@@ -706,7 +706,7 @@ type gen struct {
 	w        *world
 	shared   map[int]string // cid -> pin token last tracked
 	draining int
-	profile  int // 0 mixed, 1 burst (queue pressure), 2 churn on one cid, 3 faulty daemon, 4 recover rounds
+	profile  int // 0 mixed, 1 burst (queue pressure), 2 churn on one cid, 3 faulty daemon, 4 recover rounds, 5 noise
 	hot      int // the cid the churn profile insists on
 }
 
@@ -798,6 +798,31 @@ func (g *gen) next() string {
 			return fmt.Sprintf("k:%d", parked[r.Intn(len(parked))])
 		}
 	}
+	if g.profile == 5 {
+		// noise: actions drawn without looking at the state (answers for calls that do not exist, repeated
+		// effects, recover / untrack of cids never tracked, races without a parked call)
+		c := r.Intn(n)
+		switch r.Intn(12) {
+		case 0, 1:
+			return fmt.Sprintf("k:%d", c)
+		case 2:
+			return fmt.Sprintf("x:%d", c)
+		case 3, 4:
+			return fmt.Sprintf("e:%d", c)
+		case 5:
+			return fmt.Sprintf("l:%d", c)
+		case 6:
+			return fmt.Sprintf("r:%d", c)
+		case 7:
+			return "R"
+		case 8:
+			return fmt.Sprintf("k:%d&%s", c, g.instr())
+		case 9:
+			return fmt.Sprintf("x:%d&u:%d", c, r.Intn(n))
+		default:
+			return g.instr()
+		}
+	}
 	// weights: instruction / recover / lose / drain / daemon action
 	wInstr, wRec, wLose, wDrain := 42, 13, 3, 6
 	switch g.profile {
@@ -883,7 +908,7 @@ func runSchedule(cap, workers, n int, acts []string, r *common.Rng, length int, 
 	var done []string
 	g := &gen{r: r, w: w, shared: map[int]string{}}
 	if r != nil {
-		g.profile = []int{0, 0, 0, 1, 1, 2, 2, 3, 4, 4}[r.Intn(10)]
+		g.profile = []int{0, 0, 0, 1, 1, 2, 2, 3, 4, 4, 5}[r.Intn(11)]
 		g.hot = r.Intn(n)
 	}
 	total := len(acts)
